@@ -5,6 +5,19 @@ NOTE_BASE = ("Trusted: rustc's type checking/name resolution/MIR construction; d
              "rand::gen_range; lawful Ord/PartialOrd of element types. The check never executes the crate.")
 
 CLAIMS = {
+    "C01": dict(
+        category="other",
+        text="Partial, and stated as such: decides only the INTERPOLATION LAYER of C01, relative to C02 (that selection returns the true "
+             "order statistics is a runtime-value property that static analysis cannot decide here and is not claimed). Decided on MIR: "
+             "index arithmetic (N−1)q with floor/ceil/fract; the five strategies' needs_lower/needs_higher and interpolate formulas (CAS "
+             "on extracted terms); the bulk routine applies the strategy to the values looked up at lower/higher index of the j-th q and "
+             "stores it in the j-th slot; result shape = input shape with the axis resized to the number of requested quantiles; single = "
+             "slice 0 of bulk; sorted+deduped index vector; axis passed through; error rows. Not decided: the selected elements "
+             "themselves, representability/integer rounding, pivot independence.",
+        design_ref="DESIGN.md §4 C01",
+        note=NOTE_BASE + " sympy for the strategy formulas.",
+        technique="static analysis: symbolic term extraction of the interpolation formulas + delegation/shape/pairing rules over MIR",
+    ),
     "C20": dict(
         category="proof",
         text="Static proof of a sufficient condition for layout independence on the resolved MIR of every body: no layout-observing "
@@ -179,7 +192,6 @@ CLAIMS = {
 
 
 NOT_APPLICABLE = {
-    "C01": "static analysis cannot decide it: the value of a quantile for every lane content, q and pivot sequence is a runtime quantity; no rule over the code's shape decides floor/ceil((N-1)q) float arithmetic or the correctness of selection (DESIGN.md §4 C01)",
     "C02": "static analysis cannot decide it: functional correctness of randomized quickselect over all order patterns and pivot sequences quantifies over runtime values and needs an array-content domain or a solver (DESIGN.md §4 C02)",
     "C08": "static analysis cannot decide it: agreement with the definition within a roundoff bound, symmetry, [-1,1] range and affine invariances are numerical statements about runtime values (DESIGN.md §4 C08)",
     "C19": "static analysis cannot decide it: monotonicity in q, ordering between strategies and permutation/relabelling invariance relate values of several runs; nothing in the code's shape decides them short of proving C01/C02 (DESIGN.md §4 C19)",
